@@ -28,6 +28,8 @@ RULE = (
 ASSUMPTIONS = [
     "virtual monotonic clock (exact); wrapped function takes no time and never fails",
     "at age == expiration both a cached and a fresh answer are accepted",
+    "a receiver that is freed and whose address is reused by a new instance is not explored: "
+    "object addresses are not an owned source of nondeterminism (replays would not reproduce)",
     "positional and keyword call forms may or may not share an entry (unspecified)",
 ]
 BOUNDS = {
@@ -81,7 +83,6 @@ def _ops(program) -> list[tuple]:
             ops += [("rec", None, 1), ("rec", None, 1.0)]  # call(k) whose body calls the next key
     else:
         ops += [("call", r, k) for r in ("r1", "r1p", "r2") for k in (1, 1.0)]
-        ops += [("renew", "r2", None)]  # drop receiver r2 and create a new one (likely at its address)
     if program["expiration"] is not None:
         ops += [("adv", 1.0), ("adv", 4.0)]
     return ops
@@ -174,6 +175,7 @@ def execute(program, ch: Chooser) -> Result:  # noqa: C901, PLR0912, PLR0915
         seen_vals: set = set()
         st = {"hits": 0, "evictions": 0, "expiries": 0, "typed": False, "nested_inv": 0}
         gen: dict = {}
+        reused: list = []
         NEXT = {1: 1.0, 1.0: True, True: 1}
 
         def do_call(op, nested: bool = False) -> bool:  # noqa: C901, PLR0911, PLR0912
@@ -264,13 +266,6 @@ def execute(program, ch: Chooser) -> Result:  # noqa: C901, PLR0912, PLR0915
             hist.append(list(op))
             if op[0] == "adv":
                 vtime.advance(op[1])
-                continue
-            if op[0] == "renew":
-                r = op[1]
-                gen[r] = gen.get(r, 0) + 1
-                value = recvs[r].value
-                del recvs[r]  # freed at once (the cache must only hold a weak reference)
-                recvs[r] = Owner(f"{r}#{gen[r]}", value)
                 continue
             if not do_call(op) or not nested_ok[0]:
                 break
